@@ -339,6 +339,38 @@ func runC08(c *Ctx) error {
 			}
 			_ = tap.Close()
 			c.count(tag, true, "kind=reader-fails-mid-stream")
+			// a streamed send with a write limit between one segment and the whole stream: the limit applies per frame, so
+			// the call either succeeds with one complete message, or - if it is rejected for its size - leaves no byte of it
+			{
+				lspec := connSpec{Server: server, PMD: pmd, WLimit: 262144}
+				conn4, tap4, err := lspec.open(&recHandler{})
+				if err != nil {
+					return err
+				}
+				data := randBytes(c.Rng, 3*131072)
+				res := rawSend(conn4, sendOp{API: "file", Opcode: 2, Reader: newChunkReader(splitEven(data, 3), "sep")})
+				tag4 := fmt.Sprintf("streamed send above the write limit in total server=%v pmd=%v result=%d", server, pmd, res)
+				fs, rest, perr := parseFrames(tap4.written())
+				var dataFrames []frame
+				for _, f := range fs {
+					if f.Opcode < 8 {
+						dataFrames = append(dataFrames, f)
+					}
+				}
+				switch {
+				case perr != nil || len(rest) != 0:
+					c.oracleFail("bytes on the wire are not whole frames ["+tag4+"]", "wire-not-frames", map[string]any{"tag": tag4})
+				case res == 0:
+					rx := &rfcReceiver{server: server}
+					if msgs, problem := rx.receive(tap4.written()); problem != "" || len(msgs) != 1 || !bytes.Equal(msgs[0].Payload, data) {
+						c.oracleFail(fmt.Sprintf("WriteFile reported success but the wire does not hold exactly that message (%s, %d messages) [%s]", problem, len(msgs), tag4), "success-not-once", map[string]any{"tag": tag4})
+					}
+				case len(dataFrames) != 0:
+					c.oracleFail(fmt.Sprintf("WriteFile was rejected (result %d) and yet %d frame(s) of the message are on the wire [%s]", res, len(dataFrames), tag4), "rejected-on-wire", map[string]any{"tag": tag4})
+				}
+				_ = tap4.Close()
+				c.count(tag4, true, "kind=stream-above-limit")
+			}
 			// a transport that accepts part of a frame and then fails: the call must not report success (compressed frames too:
 			// the window update behind the write must not hide the error), and later calls are rejected
 			for _, fault := range []string{"short-write", "write-error"} {
